@@ -204,9 +204,10 @@ def shifts(wide):
 
 
 def lookups(wide, A):
-    d = {"none": None, "map": {A: A.upper(), 1: "one"}}
+    # the "falsy" lookup (values None / 0 / "") is part of every tier: a lookup result must not be tested by truthiness
+    d = {"none": None, "map": {A: A.upper(), 1: "one"}, "falsy": {A: None, 12: 0, 1.5: ""}}
     if wide:
-        d.update({"empty": {}, "falsy": {A: None, 12: 0, 1.5: ""}})
+        d.update({"empty": {}})
     return d
 
 
